@@ -288,6 +288,22 @@ CLAIMED["C05"] = dict(
          "verified: which controls a solved state triggers (an oracle in the theorems; observed per pass in the tie).",
     technique="Coq proof (induction over action lists, sortedness/permutation, tracker invariant) + vm_compute differential of every traced post-solve pass")
 
+CLAIMED["C03"] = dict(
+    text="Proof: the system both engines are specified to solve -- junction balance with constant or pressure-dependent non-decreasing demand, one "
+         "strictly increasing head-loss law per link -- has at most one solution (flows on every link, heads at every node tied to a source), by the "
+         "discrete divergence identity over arbitrary link lists; the laws of the common feature set (H-W pipe + minor loss, signed quadratic, head pump "
+         "curve) are strictly increasing; the constant-power pump law is not (two branches, _refuted theorem -- the root of a defect found and fixed). "
+         "BinFile.read's table of unit parameters and its status recoding are regenerated from the source on every run and proved equal to the "
+         "quantities EPANET writes (with C17's conversion theorems). Ties decided inside coqc by interval arithmetic: on the results BOTH engines report "
+         "for the same generated model every junction balances and every open pipe / active TCV obeys the model law (so both are approximate solutions "
+         "of the system of the theorem). The statement itself: WNTRSimulator vs EpanetSimulator at every report step over the INP flow units, "
+         "EPANET(unit a) vs EPANET(unit b), harness-written INP texts run by the toolkit directly vs read_inpfile + WNTRSimulator, Net1-3.",
+    ref="DESIGN.md section 5 C03",
+    note="Partial: EPANET itself is a binary and is not modelled; the quantitative step (residual below tolerance => distance to the unique solution "
+         "below a bound) is not proved, the comparison with stated tolerances stands in for it and is the failing-input search. Trusted: Coq kernel, "
+         "stdlib real axioms, coq-interval, translator binunits.py, harness (tolerances, near-event filter, own INP writer), the EPANET 2.2 library.",
+    technique="Coq proof (uniqueness by divergence identity, monotone laws) + regenerated BinFile table + interval-certified residual checks on both engines' reports")
+
 NOT_YET = {
 }
 
